@@ -137,6 +137,22 @@ CLAIMED = {
                   "empty containers, docstring vocabulary for documented exceptions",
         design="DESIGN.md §4 C12, appendix B.4",
     ),
+    "C15": dict(
+        level="other",
+        text="Structural clauses of 'images are stored once, with the type of the actual image': the four literal tables are "
+             "folded from the source and chained (Pillow format -> canonical extension -> content type -> Default content-type "
+             "row -> ImagePart in the part-class registry; video content types -> MediaPart); get_or_add_image_part / "
+             "get_or_add_media_part create a part only when a SHA1 lookup of the same object found nothing; the lookup compares "
+             "the digest of every part reachable by an image (media/video) relationship of the whole package; image and media "
+             "parts are constructed nowhere else; sha1/ext/content_type/size/dpi of an Image depend (transitively, by field-read "
+             "analysis) on the stored bytes only, never the file name; the bytes read are handed unchanged through from_file -> "
+             "from_blob -> __init__ -> part. NOT decided: byte equality at run time, DPI normalisation and scaling arithmetic, "
+             "Pillow's own format detection.",
+        technique="static analysis: constant folding and chaining of the format/extension/content-type/registry tables, "
+                  "lookup-dominates-create check, who-may-construct rule, transitive field-read dependency analysis, "
+                  "parameter pass-through tracing",
+        design="DESIGN.md §4 C15",
+    ),
     "C13": dict(
         level="other",
         text="Narrow structural clauses of placeholder cloning: the latent set {DATE, FOOTER, SLIDE_NUMBER} and the notes "
@@ -184,7 +200,7 @@ _NOT_BUILT = "decidable structural clause designed in DESIGN.md but its checker 
 NOT_APPLICABLE = {
     "C01": _NOT_BUILT, "C02": _NOT_BUILT, "C04": _NOT_BUILT,
     "C06": _NOT_BUILT, "C08": _NOT_BUILT, "C09": _NOT_BUILT,
-    "C12": _NOT_BUILT, "C13": _NOT_BUILT, "C14": _NOT_BUILT, "C15": _NOT_BUILT,
+    "C12": _NOT_BUILT, "C13": _NOT_BUILT, "C14": _NOT_BUILT,
     "C16": _NOT_BUILT, "C17": _NOT_BUILT, "C18": _NOT_BUILT,
     "C19": "part-name arithmetic is an equation between values of pure string functions (posixpath "
            "semantics) over all name pairs; no table, ordering or ownership fact in the source determines it; "
